@@ -15,7 +15,7 @@
 From Coq Require Import NArith List Bool Arith.
 Import ListNotations.
 From ZV.Mem Require Import AllocDsl AllocInstances AllocProofs AllocSet AllocSetProofs AllocGen AllocClient AllocHistory
-  AllocTheorems AllocTheoremsC AllocExamples AllocExamplesProofs.
+  AllocTheorems AllocTheoremsS AllocTheoremsC AllocExamples AllocExamplesProofs.
 Local Open Scope N_scope.
 
 (* ---- the ownership analysis is sound for EVERY program of the language and EVERY oracle: a program it accepts never
@@ -58,7 +58,8 @@ Theorem pool_reusable_after_any_history : forall zs ops, forallb pool_op ops = t
 Proof. exact AllocTheorems.pool_reusable_after_any_history. Qed.
 Print Assumptions pool_reusable_after_any_history.
 
-(* ---- ZSTDMT_createCCtx_advanced_internal / ZSTDMT_freeCCtx (factory, jobs table, buffer / cctx / seq pools) *)
+(* ---- ZSTDMT_createCCtx_advanced_internal / ZSTDMT_resize (any state of the tables and pools it finds) / ZSTDMT_freeCCtx
+   (factory, jobs table, buffer / cctx / seq pools) *)
 Theorem mtctx_any_history_no_leak : forall zs, sizes_ok zs -> forall ops, forallb mtctx_op ops = true -> forall o,
   let s := fst (run o (session zs ops ;; teardown_mtctx zs) init_state) in live s = [] /\ errs s = [].
 Proof. exact AllocTheorems.mtctx_any_history_no_leak. Qed.
@@ -101,8 +102,8 @@ Theorem dctx_reusable_after_any_history : forall zs ops, forallb dctx_op ops = t
 Proof. exact AllocTheorems.dctx_reusable_after_any_history. Qed.
 Print Assumptions dctx_reusable_after_any_history.
 
-(* ---- ZSTD_CCtx with local dictionary, workspace and the ZSTDMT_CCtx it owns: every history of create / loadDictionary /
-   refCDict / single-threaded compression / multithreaded compression (any worker count, resize, jobs, flushes) / reset / free *)
+(* ---- ZSTD_CCtx with local dictionary and the ZSTDMT_CCtx it owns (nbWorkers >= 1): every history of create / loadDictionary /
+   refCDict / multithreaded compression (any worker count, resize, jobs, flushes) / reset / free *)
 Theorem cctx_any_history_no_leak : forall zs, sizes_ok zs -> forall ops, forallb cctx_op ops = true -> forall o,
   let s := fst (run o (session zs ops ;; teardown_cctx zs) init_state) in live s = [] /\ errs s = [].
 Proof. exact AllocTheoremsC.cctx_any_history_no_leak. Qed.
@@ -122,14 +123,26 @@ Theorem cctx_reusable_mt_after_any_history : forall zs, sizes_ok zs -> forall op
 Proof. exact AllocTheoremsC.cctx_reusable_mt_after_any_history. Qed.
 Print Assumptions cctx_reusable_mt_after_any_history.
 
-Theorem cctx_reusable_st_after_any_history : forall zs, sizes_ok zs -> forall ops, forallb cctx_op ops = true ->
+(* ---- the same context used with nbWorkers = 0: every history of create / loadDictionary / refCDict / single-threaded
+   compression (any workspace decision) / reset / free *)
+Theorem cctx_st_any_history_no_leak : forall zs ops, forallb cctx_st_op ops = true -> forall o,
+  let s := fst (run o (session zs ops ;; teardown_cctx zs) init_state) in live s = [] /\ errs s = [].
+Proof. exact AllocTheoremsS.cctx_st_any_history_no_leak. Qed.
+Print Assumptions cctx_st_any_history_no_leak.
+
+Theorem cctx_st_any_history_error_iff_failure : forall zs ops op, forallb cctx_st_op ops = true -> cctx_st_op op = true -> forall o,
+  let s := fst (run o (session zs ops ;; client zs op) init_state) in status s = false <-> (0 < nfail s)%nat.
+Proof. exact AllocTheoremsS.cctx_st_any_history_error_iff_failure. Qed.
+Print Assumptions cctx_st_any_history_error_iff_failure.
+
+Theorem cctx_st_reusable_after_any_history : forall zs ops, forallb cctx_st_op ops = true ->
   forall o1 o2, (forall k, fails o2 k = false) -> forall wsz cdsz,
   let s1 := fst (run o1 (session zs ops) init_state) in
   sget s1 K_cctx <> None ->
   let s2 := fst (run o2 (client zs OReset ;; Forget ;; client zs (OCompressAny wsz cdsz)) s1) in
   status s2 = true /\ errs s2 = [].
-Proof. exact AllocTheoremsC.cctx_reusable_st_after_any_history. Qed.
-Print Assumptions cctx_reusable_st_after_any_history.
+Proof. exact AllocTheoremsS.cctx_st_reusable_after_any_history. Qed.
+Print Assumptions cctx_st_reusable_after_any_history.
 
 (* ---- T-tie: with the constants regenerated from the current headers the hypothesis [sizes_ok] holds and the model's
    formulas for BUF_POOL_MAX_NB_BUFFERS / SEQ_POOL_MAX_NB_BUFFERS / the jobs-table size agree with the C macros *)
